@@ -607,55 +607,63 @@ func TestCheck(t *testing.T) {
 					for _, end := range []string{"first", "last", "both"} {
 						for _, strip := range []float64{-1.0, -1.5, -1.999, 0.0, 0.4, 0.999, 1.0, 1.5, 2.5, -2.0, -3.5} {
 							for npts := 1; npts <= 6; npts++ {
-								idx++
-								if !c.Mine(idx) {
-									continue
-								}
-								// a row of npts points along the side's normal direction... build a straight line
-								pts := make([]float64, 0, 2*npts)
-								for i := 0; i < npts; i++ {
-									// inside coordinates
-									x := 1.5 + float64(i)*(float64(w)-3)/float64(npts)
-									y := 1.5 + float64(i)*(float64(h)-3)/float64(npts)
-									pts = append(pts, x, y)
-								}
-								put := func(i int) {
-									// strip is the distance outside: value v means coordinate = edge + v (right/bottom) or -v... mapped per side
-									switch side {
-									case 0: // left: x = -strip' where strip in [-?]. use x = strip-ish below zero
-										pts[2*i] = -math.Abs(strip) - 0.0001*float64(i)
-										if strip >= 0 && strip < 1 {
-											pts[2*i] = -strip // (-1, 0]: truncates to 0 (inside)
-										}
-									case 1: // right
-										pts[2*i] = float64(w) + strip
-									case 2: // top
-										pts[2*i+1] = -math.Abs(strip) - 0.0001*float64(i)
-										if strip >= 0 && strip < 1 {
-											pts[2*i+1] = -strip
-										}
-									default: // bottom
-										pts[2*i+1] = float64(h) + strip
+								for depth := 1; depth <= 3; depth++ {
+									if depth > 1 && npts < 2*depth {
+										continue
 									}
-								}
-								if end == "first" || end == "both" {
-									put(0)
-								}
-								if (end == "last" || end == "both") && npts > 1 {
-									put(npts - 1)
-								}
-								cs := NCase{W: w, H: h, Points: pts}
-								nt := false
-								for i := 0; i+1 < len(pts); i += 2 {
-									x, y := int(pts[i]), int(pts[i+1])
-									if x == -1 || x == w || y == -1 || y == h {
-										nt = true
+									idx++
+									if !c.Mine(idx) {
+										continue
 									}
-								}
-								cl := fmt.Sprintf("side=%d;end=%s", side, end)
-								c.Note("nudge_rules_all_sides", cl, nt, hx.HashS("n", fmt.Sprint(w, h, pts)), func() any { return cs })
-								if !c.Enum("nudge_rules_all_sides", "nudge", cs, nil) {
-									break
+									// a row of npts points along the side's normal direction... build a straight line
+									pts := make([]float64, 0, 2*npts)
+									for i := 0; i < npts; i++ {
+										// inside coordinates
+										x := 1.5 + float64(i)*(float64(w)-3)/float64(npts)
+										y := 1.5 + float64(i)*(float64(h)-3)/float64(npts)
+										pts = append(pts, x, y)
+									}
+									put := func(i int) {
+										// strip is the distance outside: value v means coordinate = edge + v (right/bottom) or -v... mapped per side
+										switch side {
+										case 0: // left: x = -strip' where strip in [-?]. use x = strip-ish below zero
+											pts[2*i] = -math.Abs(strip) - 0.0001*float64(i)
+											if strip >= 0 && strip < 1 {
+												pts[2*i] = -strip // (-1, 0]: truncates to 0 (inside)
+											}
+										case 1: // right
+											pts[2*i] = float64(w) + strip
+										case 2: // top
+											pts[2*i+1] = -math.Abs(strip) - 0.0001*float64(i)
+											if strip >= 0 && strip < 1 {
+												pts[2*i+1] = -strip
+											}
+										default: // bottom
+											pts[2*i+1] = float64(h) + strip
+										}
+									}
+									// the first / last `depth` points of the row lie in the strip (a prefix / suffix)
+									for k := 0; k < depth; k++ {
+										if end == "first" || end == "both" {
+											put(k)
+										}
+										if (end == "last" || end == "both") && npts > 1 {
+											put(npts - 1 - k)
+										}
+									}
+									cs := NCase{W: w, H: h, Points: pts}
+									nt := false
+									for i := 0; i+1 < len(pts); i += 2 {
+										x, y := int(pts[i]), int(pts[i+1])
+										if x == -1 || x == w || y == -1 || y == h {
+											nt = true
+										}
+									}
+									cl := fmt.Sprintf("side=%d;end=%s;points_in_strip_per_end=%d", side, end, depth)
+									c.Note("nudge_rules_all_sides", cl, nt, hx.HashS("n", fmt.Sprint(w, h, pts)), func() any { return cs })
+									if !c.Enum("nudge_rules_all_sides", "nudge", cs, nil) {
+										break
+									}
 								}
 							}
 						}
